@@ -3,7 +3,7 @@ From Coq Require Import List Bool Arith NArith.
 Import ListNotations.
 Require Import PV.TypeVar.Base PV.TypeVar.Model PV.TypeVar.Spec PV.Call.Model.
 Require Import PV.Binder.Kind PV.Binder.Sig PV.Binder.Bind PV.Binder.PyBind.
-Require Import PV.Proofs.BinderConcrete PV.Proofs.BinderValid.
+Require Import PV.Proofs.BinderConcrete PV.Proofs.BinderValid PV.Proofs.SolveCall.
 
 Section CallMain.
   Context {V : Type} (O : ops V) (limit : nat).
@@ -35,3 +35,230 @@ Section CallMain.
     destruct (bind (sig_of s) (actuals_of c)); split; intros; congruence.
   Qed.
 End CallMain.
+
+Section CallThms.
+  Context {V : Type} (O : ops V) (limit : nat).
+  Notation cparam := (@cparam V).
+  Notation barg := (@barg V).
+
+  Lemma pass2_nil : forall sol (b : list (cparam * barg)),
+    pass2 O sol b = [] <-> forall p ba, In (p, ba) b -> fits O sol (ann p) ba = true.
+  Proof.
+    intros sol b. unfold pass2. induction b as [|[p ba] b IH]; cbn; [split; [intros _ ? ? []|reflexivity]|].
+    destruct (fits O sol (ann p) ba) eqn:E; cbn.
+    - rewrite IH. split.
+      + intros H q qa [Hq|Hq]; [injection Hq as <- <-; exact E|apply H, Hq].
+      + intros H q qa Hq. apply H. right. exact Hq.
+    - split; [intros HH; discriminate HH|]. intros H. specialize (H p ba (or_introl eq_refl)). congruence.
+  Qed.
+
+  Lemma pass2_in : forall sol (b : list (cparam * barg)) d,
+    In d (pass2 O sol b) <->
+    exists p ba, In (p, ba) b /\ d = IncompatibleArgument (pname (cp p)) /\ fits O sol (ann p) ba = false.
+  Proof.
+    intros sol b d. unfold pass2. rewrite in_flat_map. split.
+    - intros [[p ba] [Hin H]]. destruct (fits O sol (ann p) ba) eqn:E; [destruct H|].
+      destruct H as [<-|[]]. exists p, ba. auto.
+    - intros [p [ba [Hin [-> E]]]]. exists (p, ba). split; [exact Hin|]. rewrite E. left. reflexivity.
+  Qed.
+
+  (* shape of an accepted call *)
+  Theorem check_call_accepted_iff : forall s c,
+    fst (check_call O limit s c) = [] <->
+    exists b l, cbind s c = Some b /\ pass1 O limit s b = inr l /\ resolve_ok O limit l = true /\
+      forall p ba, In (p, ba) b -> fits O (sol_of O limit l) (ann p) ba = true.
+  Proof.
+    intros s c. unfold check_call. destruct (cbind s c) as [b|]; cbn.
+    2:{ split; [intros HH; discriminate HH|]. intros [b [l [H _]]]. discriminate H. }
+    destruct (pass1 O limit s b) as [n|l] eqn:Ep; cbn.
+    { split; [intros HH; discriminate HH|]. intros [b' [l [H1 [H2 _]]]]. injection H1 as <-. congruence. }
+    destruct (resolve_ok O limit l) eqn:Er; cbn.
+    - rewrite pass2_nil. split.
+      + intros H. exists b, l. auto.
+      + intros [b' [l' [H1 [H2 [_ H4]]]]]. injection H1 as <-. assert (l' = l) by congruence. subst. exact H4.
+    - split; [intros HH; discriminate HH|]. intros [b' [l' [H1 [H2 [H3 _]]]]]. injection H1 as <-.
+      assert (l' = l) by congruence. subst. congruence.
+  Qed.
+
+  (* an accepted call comes with a solution for every type variable under which every
+     bound argument value fits the substituted annotation, and the inferred type is the
+     substituted return annotation — otherwise an error is reported *)
+  Theorem accepted_call_arguments_fit : forall s c,
+    diagnosed O limit s c = false ->
+    exists b sol, cbind s c = Some b /\ snd (check_call O limit s c) = inferred O sol (cret s) /\
+      forall p vs x, In (p, BVals vs) b -> In x vs -> fits1 O sol (ann p) x = true.
+  Proof.
+    intros s c Hd. unfold diagnosed in Hd.
+    destruct (fst (check_call O limit s c)) eqn:E; [|discriminate].
+    apply check_call_accepted_iff in E. destruct E as [b [l [Hb [H1 [Hr Hfit]]]]].
+    exists b, (sol_of O limit l). split; [exact Hb|]. split.
+    - unfold check_call. rewrite Hb, H1, Hr. reflexivity.
+    - intros p vs x Hin Hx. specialize (Hfit p (BVals vs) Hin). cbn in Hfit.
+      rewrite forallb_forall in Hfit. apply Hfit, Hx.
+  Qed.
+
+  (* the solver-level findings of C15 cannot surface in an accepted call: every
+     callback's parameter type (an UPPER bound of T_k) accepts the value chosen for T_k,
+     and the callback's result is accepted by the value chosen for its result variable *)
+  Theorem accepted_call_respects_callback_bounds : forall s c,
+    diagnosed O limit s c = false ->
+    exists b sol, cbind s c = Some b /\
+      forall p vs k r pv qv, In (p, BVals vs) b -> ann p = AnnFun k r -> In (AFun pv qv) vs ->
+        acc O pv (sol k) = true /\ (forall j, r = RVar j -> acc O (sol j) qv = true).
+  Proof.
+    intros s c Hd. destruct (accepted_call_arguments_fit s c Hd) as [b [sol [Hb [_ Hfit]]]].
+    exists b, sol. split; [exact Hb|]. intros p vs k r pv qv Hin Ea Hx.
+    specialize (Hfit p vs (AFun pv qv) Hin Hx). rewrite Ea in Hfit. cbn in Hfit.
+    apply andb_prop in Hfit. destruct Hfit as [H1 H2]. split; [exact H1|].
+    intros j ->. exact H2.
+  Qed.
+
+  (* ---- signatures without type variables ---- *)
+  Lemma no_tv_pass1 : forall s (b : list (cparam * barg)),
+    forallb (fun p => negb (has_tv (ann p))) (map fst b) = true -> pass1 O limit s b = inr [].
+  Proof.
+    intros s b. induction b as [|[p ba] b IH]; cbn; [reflexivity|]. intros H.
+    apply andb_prop in H. destruct H as [H1 H2]. destruct (has_tv (ann p)); [discriminate|].
+    rewrite (IH H2). reflexivity.
+  Qed.
+
+  Lemma fits1_no_tv : forall sol sol' (a : @annot V) x, has_tv a = false -> fits1 O sol a x = fits1 O sol' a x.
+  Proof. intros sol sol' [|t|k|k|k j|k r] x H; try discriminate; reflexivity. Qed.
+
+  Lemma cbind_params : forall (s : @csig V) c b p ba, cbind s c = Some b -> In (p, ba) b -> In p (cparams s).
+  Proof.
+    intros s c b p ba H Hin. unfold cbind in H. destruct (bind (sig_of s) (actuals_of c)) as [r|]; [|discriminate].
+    injection H as <-. apply in_map_iff in Hin. destruct Hin as [[q [[n pos] pl]] [He Hc]].
+    injection He as <- _. eapply in_combine_l. exact Hc.
+  Qed.
+
+  (* the diagnostics of a call that binds to a signature without type variables are exactly
+     one incompatible_argument per parameter with an argument its annotation does not accept *)
+  Theorem nongeneric_diagnostics : forall s c b,
+    no_tv s = true -> cbind s c = Some b ->
+    forall d, In d (fst (check_call O limit s c)) <->
+      exists p vs x, In (p, BVals vs) b /\ d = IncompatibleArgument (pname (cp p)) /\
+        In x vs /\ fits1 O (fun _ => any_generic O) (ann p) x = false.
+  Proof.
+    intros s c b Hnv Hb d.
+    assert (Hall : forallb (fun p => negb (has_tv (ann p))) (map fst b) = true).
+    { apply forallb_forall. intros p Hp. apply in_map_iff in Hp. destruct Hp as [[q ba] [<- Hin]].
+      unfold no_tv in Hnv. rewrite forallb_forall in Hnv. apply Hnv. eapply cbind_params; eassumption. }
+    unfold check_call. rewrite Hb, (no_tv_pass1 s b Hall). cbn. rewrite pass2_in. split.
+    - intros [p [ba [Hin [-> Hf]]]]. destruct ba as [vs|dd]; [|discriminate].
+      cbn in Hf.
+      assert (Hex : existsb (fun x => negb (fits1 O (sol_of O limit []) (ann p) x)) vs = true).
+      { clear -Hf. induction vs as [|x l IH]; cbn in *; [discriminate|].
+        destruct (fits1 O (sol_of O limit []) (ann p) x); cbn in *; [apply IH, Hf|reflexivity]. }
+      apply existsb_exists in Hex. destruct Hex as [x [Hx Hn]].
+      exists p, vs, x. repeat split; auto.
+      assert (Hp : has_tv (ann p) = false).
+      { rewrite forallb_forall in Hall. specialize (Hall p). destruct (has_tv (ann p)); [|reflexivity].
+        assert (negb true = true); [|discriminate]. apply Hall. apply in_map_iff. exists (p, BVals vs). auto. }
+      rewrite (fits1_no_tv _ (sol_of O limit []) _ _ Hp).
+      destruct (fits1 O (sol_of O limit []) (ann p) x); [discriminate|reflexivity].
+    - intros [p [vs [x [Hin [-> [Hx Hf]]]]]]. exists p, (BVals vs). repeat split; auto.
+      cbn. apply not_true_is_false. intros Hallf. rewrite forallb_forall in Hallf.
+      assert (Hp : has_tv (ann p) = false).
+      { rewrite forallb_forall in Hall. specialize (Hall p). destruct (has_tv (ann p)); [|reflexivity].
+        assert (negb true = true); [|discriminate]. apply Hall. apply in_map_iff. exists (p, BVals vs). auto. }
+      rewrite (fits1_no_tv _ (sol_of O limit []) _ _ Hp) in Hf. specialize (Hallf x Hx). congruence.
+  Qed.
+
+  (* with acceptance = runtime membership on literal arguments:
+     diagnosed(call) <=> exists arg: not member(arg, declared(param)) *)
+  Context {Obj : Type} (val : Obj -> V) (member : Obj -> V -> bool).
+  Hypothesis acc_member : forall t o, acc O t (val o) = member o t.
+
+  Definition literal_args (b : list (cparam * barg)) : Prop :=
+    forall p vs x, In (p, BVals vs) b -> In x vs -> exists o, x = AV (val o).
+
+  Theorem nongeneric_diagnosed_iff_nonmember : forall s c b,
+    no_tv s = true -> cbind s c = Some b -> literal_args b ->
+    (diagnosed O limit s c = true <->
+     exists p vs t o, In (p, BVals vs) b /\ ann p = AnnTy t /\ In (AV (val o)) vs /\ member o t = false).
+  Proof.
+    intros s c b Hnv Hb Hlit. unfold diagnosed. split.
+    - destruct (fst (check_call O limit s c)) as [|d l] eqn:E; [discriminate|]. intros _.
+      assert (Hd : In d (fst (check_call O limit s c))) by (rewrite E; left; reflexivity).
+      apply (nongeneric_diagnostics s c b Hnv Hb) in Hd.
+      destruct Hd as [p [vs [x [Hin [_ [Hx Hf]]]]]].
+      destruct (Hlit p vs x Hin Hx) as [o ->].
+      assert (Hp : has_tv (ann p) = false).
+      { unfold no_tv in Hnv. rewrite forallb_forall in Hnv. specialize (Hnv p (cbind_params s c b p _ Hb Hin)).
+        destruct (has_tv (ann p)); [discriminate|reflexivity]. }
+      destruct (ann p) as [|t|k|k|k j|k r] eqn:Ea; cbn in Hf, Hp; try discriminate.
+      exists p, vs, t, o. rewrite <- acc_member. auto.
+    - intros [p [vs [t [o [Hin [Ea [Hx Hm]]]]]]].
+      assert (Hd : In (IncompatibleArgument (pname (cp p))) (fst (check_call O limit s c))).
+      { apply (nongeneric_diagnostics s c b Hnv Hb). exists p, vs, (AV (val o)). repeat split; auto.
+        rewrite Ea. cbn. rewrite acc_member. exact Hm. }
+      destruct (fst (check_call O limit s c)); [destruct Hd|reflexivity].
+  Qed.
+
+  (* ---- with C15: a positional / keyword argument passed for a parameter annotated T_k is
+     always accepted by the value chosen for T_k (the second pass never reports it) ---- *)
+  Hypothesis L : acc_laws O.
+
+  Lemma both_some : forall {A} (x y : option (list A)) l, both x y = Some l ->
+    exists a b, x = Some a /\ y = Some b /\ l = a ++ b.
+  Proof. intros A [a|] [b|] l H; cbn in H; try discriminate. injection H as <-. eauto. Qed.
+
+  Lemma pass1_incl : forall s (b : list (cparam * barg)) l p vs,
+    pass1 O limit s b = inr l -> In (p, BVals vs) b -> has_tv (ann p) = true ->
+    exists l0, gen_bounds O limit s (ann p) vs = Some l0 /\ incl l0 l.
+  Proof.
+    intros s b. induction b as [|[q qa] b IH]; intros l p vs H Hin Htv; [destruct Hin|].
+    cbn in H.
+    destruct (if has_tv (ann q) then _ else Some []) as [here|] eqn:Eh; [|discriminate].
+    destruct (pass1 O limit s b) as [n|l'] eqn:Ep; [discriminate|]. injection H as <-.
+    destruct Hin as [Hq|Hin].
+    - injection Hq as -> ->. rewrite Htv in Eh. exists here. split; [exact Eh|].
+      intros z Hz. apply in_or_app. left. exact Hz.
+    - destruct (IH l' p vs eq_refl Hin Htv) as [l0 [Hg Hi]]. exists l0. split; [exact Hg|].
+      intros z Hz. apply in_or_app. right. apply Hi, Hz.
+  Qed.
+
+  Lemma bounds_for_in : forall k b (l : list (@tagged V)), In (k, b) l -> In b (bounds_for k l).
+  Proof.
+    intros k b l H. unfold bounds_for. apply in_flat_map. exists (k, b). split; [exact H|].
+    rewrite Nat.eqb_refl. left. reflexivity.
+  Qed.
+
+  Theorem typevar_argument_accepted_by_solution : forall s (b : list (cparam * barg)) l p k v,
+    pass1 O limit s b = inr l -> resolve_ok O limit l = true ->
+    In (p, BVals [AV v]) b -> ann p = AnnVar k ->
+    acc O (sol_of O limit l k) v = true.
+  Proof.
+    intros s b l p k v Hp Hr Hin Ea.
+    destruct (pass1_incl s b l p [AV v] Hp Hin) as [l0 [Hg Hi]]; [rewrite Ea; reflexivity|].
+    rewrite Ea in Hg. cbn in Hg. unfold lower_gen in Hg.
+    destruct (is_err (mresolve O limit (arg_bounds (decl_of s k) v))); [discriminate|].
+    injection Hg as <-.
+    assert (Hk : In (k, LowerBound v) l) by (apply Hi; left; reflexivity).
+    pose proof (bounds_for_in k _ l Hk) as Hb.
+    unfold sol_of, solved. destruct (bounds_for k l) as [|b0 bs] eqn:Eb; [destruct Hb|].
+    rewrite <- Eb in *.
+    assert (Hok : is_err (solved O limit l k) = false).
+    { unfold resolve_ok in Hr. rewrite forallb_forall in Hr. specialize (Hr k).
+      destruct (is_err (solved O limit l k)); [|reflexivity].
+      assert (negb true = true); [|discriminate]. apply Hr. unfold tvs. apply in_map_iff. exists (k, LowerBound v). auto. }
+    unfold solved in Hok. rewrite Eb in Hok. rewrite <- Eb in Hok.
+    destruct (mresolve O limit (bounds_for k l)) as [w|] eqn:Em; [|discriminate].
+    eapply mresolve_lower; [exact L|exact Em|exact Hb].
+  Qed.
+
+  (* the inferred type of `-> T_k` contains every literal passed (positionally or by
+     keyword) for a parameter annotated T_k *)
+  Theorem identity_result_member : forall s c b p k o,
+    cret s = RVar k -> diagnosed O limit s c = false -> cbind s c = Some b ->
+    In (p, BVals [AV (val o)]) b -> ann p = AnnVar k ->
+    member o (snd (check_call O limit s c)) = true.
+  Proof.
+    intros s c b p k o Hret Hd Hb Hin Ea.
+    destruct (accepted_call_arguments_fit s c Hd) as [b' [sol [Hb' [Hsnd Hfit]]]].
+    assert (b' = b) by congruence. subst b'. rewrite Hsnd, Hret. cbn.
+    specialize (Hfit p [AV (val o)] (AV (val o)) Hin (or_introl eq_refl)).
+    rewrite Ea in Hfit. cbn in Hfit. rewrite <- acc_member. exact Hfit.
+  Qed.
+End CallThms.
